@@ -1130,7 +1130,7 @@ size_t CodeHolder::code_size() const noexcept {
 
     if (real_size) {
       uint64_t aligned_offset = Support::align_up(offset, section->alignment());
-      ASMJIT_ASSERT(aligned_offset >= offset);
+      of = Support::FastUInt8(of | Support::FastUInt8(aligned_offset < offset));
       offset = Support::add_overflow(aligned_offset, real_size, &of);
     }
   }
